@@ -138,12 +138,13 @@ pub fn search(_tier: &str, _only: Option<&str>) {
                 x.extend(vec![LTerm::from(7isize), vars[2].clone()]);
                 let mut want = es.clone(); want.push(M::N(7)); want.push(M::V(2));
                 if x != M::L(want.clone(), None).build(&vars) { errs.push(("extend", M::L(want, None).show(), format!("{:?}", x))); }
-                if &built2[i] != t { errs.push(("extend", "the extended term is a copy: the original is unchanged".into(), "original changed".into())); }
+                if &built2[i] != t { errs.push(("aliasing", "extend on a cloned handle: the original is unchanged".into(), "original changed".into())); }
                 let shown = format!("{}", t);
                 let want_s = format!("[{}]", es.iter().map(|e| format!("{}", e.build(&vars))).collect::<Vec<_>>().join(", "));
                 if shown != want_s { errs.push(("display", want_s, shown)); }
                 let mut y = t.clone();
                 for e in y.iter_mut() { *e = LTerm::from(0isize); }
+                if &built2[i] != t { errs.push(("aliasing", "iter_mut on a cloned handle: the original is unchanged".into(), "original changed".into())); }
                 let zeros = M::L(vec![M::N(0); es.len()], None).build(&vars);
                 if y != zeros { errs.push(("iter_mut", format!("{:?}", zeros), format!("{:?}", y))); }
             }
